@@ -32,6 +32,7 @@ import (
 	"os"
 	"strings"
 	"sync"
+	"syscall"
 	"testing"
 	"time"
 
@@ -130,6 +131,11 @@ func verifC11Net(cidr string) regprocessor.Ipnet {
 }
 
 func verifC11APISetup(t testing.TB, listen bool) *verifC11API {
+	// A server that sizes a buffer by the announced Content-Length would try to allocate gigabytes per
+	// request; cap this process's address space so that such a defect ends THIS child ("fatal error: out
+	// of memory", reported as a crash) instead of exhausting the machine the other checks run on.
+	lim := syscall.Rlimit{Cur: 12 << 30, Max: 12 << 30}
+	_ = syscall.Setrlimit(syscall.RLIMIT_AS, &lim)
 	os.Setenv("PHANTOM_SUBNET_LOCATION", conjurepath.Root+"/pkg/station/lib/test/phantom_subnets.toml")
 	lg := logrus.New()
 	lg.SetOutput(io.Discard)
